@@ -34,6 +34,11 @@ CLAIMED = {
    technique="deterministic simulation of a caller history: seeded sequences of public calls on a pool of caller-owned objects and Dask collections over them (shared / isolated / placed executor models), with caller interference (in-place scribble and restore) as the injected fault; deep-digest, repeat-call and shares_memory invariants after every call",
    text="Seeded history exploration: 5..30 calls per history over every public entry point the property lists, NumPy and Dask inputs; after every call every caller-owned object must be bit-identical (I1), a repeated call must return a bitwise-equal result (I2), and after the caller overwrites an input no previously trained model may change or share memory with a caller buffer (I3). Sampling, not proof.",
    note="Trusted: BLAKE2 deep digest over array bytes / scalars / visible parameters; SimScheduler's shared mode hands tasks the caller's own objects (as Dask's threaded scheduler does). Calls that raise are not C19 violations (inputs must still be untouched)."),
+ "C16": dict(
+   design="5.4",
+   technique="deterministic simulation of a process history: seeded sequences of global-RNG perturbations, RNG-clobbering constructions, unrelated fits and repeated fits of one target spec under varying presentation (sample permutation, class relabelling), backend and simulated executor; oracle over the recorded history",
+   text="Seeded history exploration: each history interleaves 3..7 fits of one (estimator, configuration, integer random_state, data set) with perturbations of NumPy's global generator, ISV/JFA constructions that re-seed it, and unrelated trainers that consume it; fits with the same presentation must agree to 1e-12 whatever preceded them and whatever the executor model/task order, fits with permuted samples or renamed classes to 1e-8. Sampling, not proof. Listed finding: seeded k-means initialisers depend on sample order.",
+   note="Trusted: the history driver owns the global RNG; presentation invariance of k-means/GMM is asserted with explicit initial centroids/means and no convergence threshold (near-ties are skipped); seeded initialisers are evaluated and matched against the listed finding."),
 }
 
 NA = {
